@@ -68,7 +68,7 @@ FOCUS = {
                 timed=True, timed_cfgs=("ChannelTime_stranger.cfg",)),
     "C07": dict(mc={"base-live", "restart-live", "restart-safe"},
                 gen={"cover_base", "script_quick", "script_deep", "sim_restart", "sim_rekey", "sim_mixed"}, timed=True),
-    "C02": dict(mc={"accept"}, gen={"script_quick", "sim_restart", "sim_rekey", "sim_mixed"}, timed=True),
+    "C02": dict(mc={"accept"}, gen={"script_quick", "script_impostor", "sim_restart", "sim_rekey", "sim_impostor", "sim_mixed"}, timed=True),
 }
 
 
@@ -171,6 +171,10 @@ def run_pipeline(tier, replay_behaviours=None, pid=None):
             what = "%s false on real channels at %s (family %s, behaviour %d, event line %d%s)" % (
                 op, ev["ev"], fam, beh, lineno, (", panic: " + ev.get("panicv", "")) if ev.get("panic") else "")
             violations.append((pid, key, what, dict(behaviour=allb[beh], event={k: ev[k] for k in ev if k not in ("expa", "expb")}, operator=op)))
+            if op == "OnlyAcceptedData":
+                # application data accepted from a key the channel never accepted is also not an authentic peer plaintext (C02)
+                violations.append(("C02", "C02:Authentic:unaccepted-key/%s" % fam.split("_")[-1], what,
+                                   dict(behaviour=allb[beh], event={k: ev[k] for k in ev if k not in ("expa", "expb")}, operator=op)))
     # timed scenarios (ChannelTime.tla): keep-alive, rekey-by-time, replay across rotation
     if timed_fut is not None:
         tres = timed_fut.result()
